@@ -225,7 +225,7 @@ func agedShape(r *vx.Rand, i int) shape {
 			}
 		}
 	} else {
-		s.ageMs = 2500 + int64(r.Intn(8000))
+		s.ageMs = 3200 + int64(r.Intn(7000)) // (not shortly below the 3 s lock ttl: a waiter would retry thousands of times on the frozen clock)
 		s.wideWindow = r.Chance(25)
 		s.mode = []string{"both", "1pc", "async", "both"}[(i/2)%4]
 	}
